@@ -80,6 +80,7 @@ fn alias_check(b: &AnyBuf, rng: &mut Rng, rep: &mut Report) -> Option<String> {
 }
 
 static REFUSED_IN_HISTORIES: std::sync::atomic::AtomicU64 = std::sync::atomic::AtomicU64::new(0);
+static POISONED_IN_HISTORIES: std::sync::atomic::AtomicU64 = std::sync::atomic::AtomicU64::new(0);
 
 fn histories(opts: &Opts, rep: &mut Report) {
     let mut rng = Rng::new(opts.shard_seed() ^ 0xC18);
@@ -105,6 +106,7 @@ fn histories(opts: &Opts, rep: &mut Report) {
                 let mut created = 0u64;
                 let mut unwinds = 0u64;
                 let mut refused = 0u64;
+                let mut poisoned = 0u64;
                 let mut sub = Report::new("C18");
                 let ops = rng.range(20, 200 / nthreads.max(1) + 20);
                 for _ in 0..ops {
@@ -132,6 +134,19 @@ fn histories(opts: &Opts, rep: &mut Report) {
                                 return Ok((created, 0, unwinds, Some(e)));
                             }
                         }
+                    } else if rng.chance(1, 10) {
+                        // A contained panic *inside* a stream operation (an over-large
+                        // consume is refused by an assert under the state lock), then the
+                        // stream is dropped normally: everything must still be released.
+                        let (w, r) = rustradio::stream::new_stream::<u8>();
+                        let res = std::panic::catch_unwind(std::panic::AssertUnwindSafe(|| {
+                            let (rb, _) = r.read_buf().unwrap();
+                            rb.consume(1); // nothing is readable: refused
+                            panic!("verif: contained panic: the over-large consume was accepted");
+                        }));
+                        assert!(res.is_err());
+                        drop((w, r));
+                        poisoned += 1;
                     } else if rng.chance(1, 6) {
                         // Dropped by a panic that unwinds through the owner (and is
                         // contained, as by join() or catch_unwind): the release path
@@ -155,6 +170,7 @@ fn histories(opts: &Opts, rep: &mut Report) {
                 drop(live);
                 let _ = refused;
                 REFUSED_IN_HISTORIES.fetch_add(refused, std::sync::atomic::Ordering::SeqCst);
+                POISONED_IN_HISTORIES.fetch_add(poisoned, std::sync::atomic::Ordering::SeqCst);
                 Ok((created, sub.counters.get("alias_probes").copied().unwrap_or(0), unwinds, None))
             }));
         }
@@ -175,6 +191,7 @@ fn histories(opts: &Opts, rep: &mut Report) {
         }
         rep.count("streams_created", created);
         rep.count("refused_creations_during_histories", REFUSED_IN_HISTORIES.swap(0, std::sync::atomic::Ordering::SeqCst));
+        rep.count("streams_dropped_after_a_contained_panic_under_their_lock", POISONED_IN_HISTORIES.swap(0, std::sync::atomic::Ordering::SeqCst));
         rep.max("live_streams", peak.load(std::sync::atomic::Ordering::SeqCst) as u64);
         rep.set("thread_counts", nthreads.to_string());
         // quiescent point
@@ -338,7 +355,7 @@ pub fn main(opts: &Opts) -> Report {
     // of the log (every other panic still reaches the report through catch/join).
     let prev = std::panic::take_hook();
     std::panic::set_hook(Box::new(move |info| {
-        if !info.to_string().contains("verif: contained panic") {
+        if !info.to_string().contains("verif: contained panic") && !info.to_string().contains("trying to consume") {
             prev(info);
         }
     }));
